@@ -15,7 +15,7 @@ RULE = ("Interval multisets on one contig of size S (half-open, 0 <= a < b <= S)
         "All functions are called on the same Interval objects in sequence and the inputs are compared with their snapshot after every call. "
         "Oracle: dense per-base arrays in plain Python. pileup == sum of indicators; mask == coverage > 0; merge == maximal runs of the union "
         "with interior gaps <= d filled; sort == ordered permutation; unique_intersect == entries of a overlapping the union of b, in order; "
-        "jaccard / forbes == formulas on the 2x2 contingency table (skipped when a denominator is 0); clip / extend_to_size == their definitions and "
+        "jaccard / forbes == formulas on the 2x2 contingency table (skipped when a denominator is 0), on one contig and on a two-contig genome where a set may be absent from a contig; clip / extend_to_size == their definitions and "
         "inside [0, S]; count_overlap / intersect checked for values on internally non-overlapping sets and for determinism otherwise. "
         "Non-trivial: >= 2 intervals with a coincident endpoint, nesting or a duplicate, or an interval touching position 0 or the last base.")
 ASSUMPTIONS = [
@@ -24,7 +24,7 @@ ASSUMPTIONS = [
     "jaccard and forbes are not asserted when their denominator is zero.",
 ]
 REQUIRED_CLASSES = ["coincident-endpoint", "nested", "duplicate", "touches-0", "touches-end", "empty-set", "merge-distance>0", "pair", "minus-strand",
-                    "clip-out-of-bounds"]
+                    "clip-out-of-bounds", "two-contigs", "set-absent-from-a-contig"]
 BOUNDS = {"quick": "exhaustive: singles S<=6 (up to 3 intervals, all merge distances), pairs S<=5 (up to 2+2 intervals); 2000 sampled", "thorough": "exhaustive: singles S<=8, pairs S<=6 (2+2) and S<=4 (3+3); 20000 sampled (S<=300, up to 30 intervals)"}
 BUDGET_S = {"quick": 200, "thorough": 1500}
 
@@ -109,6 +109,10 @@ def classify(case):
         cl.append("empty-set")
     if case.get("b") is not None:
         cl.append("pair")
+        if case.get("placement") and a and case["b"]:
+            cl.append("two-contigs")
+            if case["placement"] & 1:
+                cl.append("set-absent-from-a-contig")
     if case.get("strands") and "-" in case["strands"]:
         cl.append("minus-strand")
     if case.get("distances") and max(case["distances"]) > 0:
@@ -122,6 +126,7 @@ def classify(case):
 def check(case, stats=None):
     import numpy as np
     from bionumpy import arithmetics as ar
+    from bionumpy.datatypes import Interval
     from bionumpy.arithmetics import intervals as iv
     S = case["S"]
     a = [tuple(x) for x in case["a"]]
@@ -161,7 +166,6 @@ def check(case, stats=None):
     if order:
         shuffled = [a[i % len(a)] for i in order] if a else []
         chroms = [("chr2", "chr1", "chr10")[i % 3] for i in order] if a else []
-        from bionumpy.datatypes import Interval
         tu = Interval(chroms, np.array([x[0] for x in shuffled], dtype=int), np.array([x[1] for x in shuffled], dtype=int))
         ref_u = snap(tu)
         r = guard("sort_intervals", lambda: ar.sort_intervals(tu))
@@ -244,6 +248,32 @@ def check(case, stats=None):
                     out.append(Failure("C08:forbes", {"expected": want_f, "actual": r, "a": sa, "b": sb}))
             unchanged("jaccard/forbes", ts, ref_s)
             unchanged("jaccard/forbes", tb_, ref_b)
+            # the same measures on a two-contig genome where a set may have no interval on one of the contigs:
+            # placement bit 0: B lives on chr2 instead of chr1; bit 1: A also has B's intervals on chr2
+            pl = case.get("placement", 0)
+            if pl:
+                two = {"chr1": S, "chr2": S}
+                A = [("chr1",) + x for x in sa] + ([("chr2",) + x for x in sb] if pl & 2 else [])
+                B = [("chr2" if pl & 1 else "chr1",) + x for x in sb]
+                tA = Interval([x[0] for x in A], np.array([x[1] for x in A], dtype=int), np.array([x[2] for x in A], dtype=int))
+                tB = Interval([x[0] for x in B], np.array([x[1] for x in B], dtype=int), np.array([x[2] for x in B], dtype=int))
+                t11 = t10 = t01 = 0
+                for c in two:
+                    ca = cover([x[1:] for x in A if x[0] == c], S)
+                    cb = cover([x[1:] for x in B if x[0] == c], S)
+                    t11 += sum(1 for x, y in zip(ca, cb) if x and y)
+                    t10 += sum(1 for x, y in zip(ca, cb) if x and not y)
+                    t01 += sum(1 for x, y in zip(ca, cb) if not x and y)
+                tot = 2 * S
+                if t11 + t10 + t01 > 0:
+                    r = guard("jaccard(two contigs)", lambda: float(ar.jaccard(two, tA, tB)))
+                    if r is not None and abs(r - t11 / (t11 + t10 + t01)) > 1e-12:
+                        out.append(Failure("C08:jaccard-two-contigs", {"expected": t11 / (t11 + t10 + t01), "actual": r, "A": A, "B": B, "S": S}))
+                if (t11 + t10) * (t11 + t01) > 0:
+                    r = guard("forbes(two contigs)", lambda: float(ar.forbes(two, tA, tB)))
+                    want_f = t11 * tot / ((t11 + t10) * (t11 + t01))
+                    if r is not None and abs(r - want_f) > 1e-12 * max(1.0, abs(want_f)):
+                        out.append(Failure("C08:forbes-two-contigs", {"expected": want_f, "actual": r, "A": A, "B": B, "S": S}))
         # count_overlap / intersect
         r1 = guard("count_overlap", lambda: int(ar.count_overlap(ts, tb_)))
         r2 = guard("count_overlap", lambda: int(ar.count_overlap(ts, tb_)))
@@ -296,7 +326,7 @@ def pair_cases(S, kmax, stride=1, offset=0):
             n += 1
             if (n + offset) % stride:
                 continue
-            yield {"S": S, "a": [list(x) for x in ma], "b": [list(x) for x in mb], "distances": [0]}
+            yield {"S": S, "a": [list(x) for x in ma], "b": [list(x) for x in mb], "distances": [0], "placement": n % 4}
 
 
 def task_singles(stats, known_open, S, kmax, stride=1, offset=0):
@@ -343,6 +373,7 @@ def sampled_case(draw, Smax, nmax):
             case["order"] = None
         else:
             case["b"] = [interval() for _ in range(draw(st.integers(0, nmax)))]
+        case["placement"] = draw(st.integers(0, 3))
     return case
 
 
